@@ -76,6 +76,8 @@ def _master_screen_file(ctx, rep):
 
 
 def check(ctx, rep):
+    from . import c35 as _c35, _share as _sh
+    _sh.share(ctx, rep, _c35, ('scroll.',), 'scrolling moves exactly the rows of the region: the character rows, the displayed text and the pixels agree on the row dropped and on the blank row')
     _master_screen_file(ctx, rep)
     ts = ctx.cls(TS + ':TextScreen')
     meths = class_methods(ts)
